@@ -2151,18 +2151,8 @@ func applyParsedTagRules(schema core.ZodSchema, fieldInfo tagparser.FieldInfo) c
 		case "nonempty":
 			if stringSchema, ok := schema.(stringTagSchema); ok {
 				schema = stringSchema.applyStringTagChecks(checks.MinLength(1))
-			} else if sliceSchema, ok := schema.(*ZodSlice[string, []string]); ok {
-				schema = sliceSchema.Min(1)
-			} else if sliceIntSchema, ok := schema.(*ZodSlice[int, []int]); ok {
-				schema = sliceIntSchema.Min(1)
-			} else if sliceAnySchema, ok := schema.(*ZodSlice[any, []any]); ok {
-				schema = sliceAnySchema.Min(1)
-			} else if mapStrSchema, ok := schema.(*ZodMap[map[string]string, map[string]string]); ok {
-				schema = mapStrSchema.Min(1)
-			} else if mapIntSchema, ok := schema.(*ZodMap[map[string]int, map[string]int]); ok {
-				schema = mapIntSchema.Min(1)
-			} else if mapAnySchema, ok := schema.(*ZodMap[map[string]any, map[string]any]); ok {
-				schema = mapAnySchema.Min(1)
+			} else if sized, ok := schema.(sizedTagSchema); ok {
+				schema = sized.applySizeTagCheck(checks.MinSize(1))
 			}
 		case "enum":
 			// Handle enum with all parameters
@@ -2229,6 +2219,27 @@ func applyStringFormat(schema core.ZodSchema, format core.ZodSchema) core.ZodSch
 		return s.applyStringTagChecks(format.Internals().Checks...)
 	}
 	return schema
+}
+
+// sizedTagSchema is implemented by the generic collection schema types
+// themselves (ZodSlice[T, R], ZodMap[T, R], ZodRecord[T, R]), so an element
+// count rule reaches every element type, for value and pointer fields alike.
+type sizedTagSchema interface {
+	applySizeTagCheck(check core.ZodCheck) core.ZodSchema
+}
+
+func (z *ZodSlice[T, R]) applySizeTagCheck(check core.ZodCheck) core.ZodSchema {
+	in := z.internals.Clone()
+	in.AddCheck(check)
+	return z.withInternals(in)
+}
+
+func (z *ZodMap[T, R]) applySizeTagCheck(check core.ZodCheck) core.ZodSchema {
+	return z.withCheck(check)
+}
+
+func (z *ZodRecord[T, R]) applySizeTagCheck(check core.ZodCheck) core.ZodSchema {
+	return z.withCheck(check)
 }
 
 // applyNilableModifier applies nilable modifier to compatible schema types
@@ -2385,12 +2396,8 @@ func applyParameterizedRule(schema core.ZodSchema, ruleName, param string) core.
 		if value, err := strconv.Atoi(param); err == nil {
 			if stringSchema, ok := schema.(stringTagSchema); ok {
 				schema = stringSchema.applyStringTagChecks(checks.Length(value))
-			} else if sliceSchema, ok := schema.(*ZodSlice[string, []string]); ok {
-				schema = sliceSchema.Length(value)
-			} else if sliceIntSchema, ok := schema.(*ZodSlice[int, []int]); ok {
-				schema = sliceIntSchema.Length(value)
-			} else if sliceAnySchema, ok := schema.(*ZodSlice[any, []any]); ok {
-				schema = sliceAnySchema.Length(value)
+			} else if sized, ok := schema.(sizedTagSchema); ok {
+				schema = sized.applySizeTagCheck(checks.Size(value))
 			}
 		}
 	case "regex":
@@ -2423,18 +2430,8 @@ func applyMinConstraint(schema core.ZodSchema, value int) core.ZodSchema {
 	switch s := schema.(type) {
 	case stringTagSchema:
 		return s.applyStringTagChecks(checks.MinLength(value))
-	case *ZodSlice[string, []string]:
-		return s.Min(value)
-	case *ZodSlice[int, []int]:
-		return s.Min(value)
-	case *ZodSlice[any, []any]:
-		return s.Min(value)
-	case *ZodMap[map[string]string, map[string]string]:
-		return s.Min(value)
-	case *ZodMap[map[string]int, map[string]int]:
-		return s.Min(value)
-	case *ZodMap[map[string]any, map[string]any]:
-		return s.Min(value)
+	case sizedTagSchema:
+		return s.applySizeTagCheck(checks.MinSize(value))
 	}
 	return schema
 }
@@ -2443,18 +2440,8 @@ func applyMaxConstraint(schema core.ZodSchema, value int) core.ZodSchema {
 	switch s := schema.(type) {
 	case stringTagSchema:
 		return s.applyStringTagChecks(checks.MaxLength(value))
-	case *ZodSlice[string, []string]:
-		return s.Max(value)
-	case *ZodSlice[int, []int]:
-		return s.Max(value)
-	case *ZodSlice[any, []any]:
-		return s.Max(value)
-	case *ZodMap[map[string]string, map[string]string]:
-		return s.Max(value)
-	case *ZodMap[map[string]int, map[string]int]:
-		return s.Max(value)
-	case *ZodMap[map[string]any, map[string]any]:
-		return s.Max(value)
+	case sizedTagSchema:
+		return s.applySizeTagCheck(checks.MaxSize(value))
 	}
 	return schema
 }
